@@ -498,6 +498,11 @@ func (k PublicKeyBTCEC) VerifyBytes(msg []byte, sig []byte) bool {
 	if err != nil {
 		return false
 	}
+	// one signature, one spelling: the parser tolerates trailing bytes and ECDSA accepts (r, N-s)
+	// besides (r, s); Serialize gives the low-s form Sign produces, with nothing after it
+	if !bytes.Equal(s.Serialize(), sig) {
+		return false
+	}
 	hash := sha256.Sum256(msg)
 	return s.Verify(hash[:], &k.key)
 }
